@@ -66,8 +66,10 @@ def _cli_check(cmd: list[str], smt: str, timeout_s: int):
 
 def solve_one(args):
     oid, smt, timeout_ms, fallbacks = args
-    res, reason, ms = _z3_check(smt, timeout_ms)
-    backend = f'z3-{z3.get_version_string()}'
+    # the solver runs as a separate process with a hard time limit: the in-process API does not
+    # always honour its timeout (recursive function unfolding)
+    res, reason, ms = _cli_check(['z3-new', '-smt2', f'-T:{max(1, timeout_ms // 1000)}'], smt, max(5, timeout_ms // 1000 + 5))
+    backend = f'z3-{z3.get_version_string()} (cli)'
     if res == 'unknown' and fallbacks:
         for name, cmd in fallbacks:
             r2, why2, ms2 = _cli_check(cmd, smt, max(5, timeout_ms // 1000))
@@ -119,9 +121,13 @@ def model_of(world, ob, timeout_ms=20000):
             ints.append(z3.Length(entry[1]))
         elif kind == 'term' and z3.is_seq(entry[1]):
             ints.append(z3.Length(entry[1]))
+    import threading
     for bound in (4, 12, 40, None):
         s = z3.Solver()
         s.set('timeout', timeout_ms)
+        watchdog = threading.Timer(timeout_ms / 1000 + 5, z3.main_ctx().interrupt)
+        watchdog.daemon = True
+        watchdog.start()
         for a in list(world.axioms) + list(ob.axioms):
             s.add(a)
         for c in ob.pc:
@@ -130,6 +136,12 @@ def model_of(world, ob, timeout_ms=20000):
         if bound is not None:
             for t in ints:
                 s.add(t <= bound, t >= -bound)
-        if s.check() == z3.sat:
+        try:
+            r = s.check()
+        except z3.Z3Exception:
+            r = z3.unknown
+        finally:
+            watchdog.cancel()
+        if r == z3.sat:
             return s.model()
     return None
